@@ -12,7 +12,10 @@ CLAIMED = {
         'encoders are proved equal to arithmetic normal forms symbolically (no sweep). C01_line_end_to_end: for every three-register mnemonic of '
         'the R-type table and any operand tokens, the parser model and all 16 passes of the pass model turn the token line into exactly the '
         'four little-endian bytes of the generated encoder\'s word (front end, passes and encoders composed inside Coq); C01_imm_line_end_to_end / C01_transfer_line_end_to_end: the same for the I-, S-, U-type tables and for branches / jal with a literal immediate; C01_text_line_end_to_end: from the TEXT of the line in any separator style (C13_line) through lexer, parser and passes to those bytes. Falsifier: real encoders + one-line text path over full '
-        'immediate ranges, decoded by the extracted Spec.',
+        'immediate ranges, decoded by the extracted Spec. MORE LINES (Proofs/EndToEndMore.v, sub-agent): C01_atomic_line_end_to_end (lr.w / sc.w / amo*.w with and without the two ordering operands: the aq / rl BITS written on the line), '
+        'C01_fence_line_end_to_end (fence succ, pred; fence alone; fence.i), C01_system_line_end_to_end (ecall; ebreak, c.ebreak with -c), C01_csr_line_end_to_end (six csr mnemonics, CSR number 0..4095), C01_imm_reg_line_end_to_end (loads / stores / jalr in the imm(reg) spelling): '
+        'token line or text -> lexer model -> parser model -> 16 passes -> the four little-endian bytes of the generated encoder\'s word, which decode32 reads back as the instruction the line names, in both modes (lw / sw / jalr head compression rules: stated for compress = false); '
+        'C01_more_line_exact (legal operands: that word; otherwise refused at the line); C01_tables_cover (the parser\'s ten 32-bit tables are exactly the Spec\'s 66 mnemonics).',
    note='Trusted: Coq kernel, py2coq, Spec decoder + operand reading (Spec/RV32.v, Spec/Operands.v), hand model of int(s,0) (PyBase.py_int_lit, differentially tested), '
         'extraction/drivers. The little-endian packing and the text front end are covered by the falsifier (text path) and by C09/C13, not by these theorems. Zero axioms.',
    technique='Coq proof over translator-regenerated encoders (symbolic bit-field lemmas) + differential run of generated code + Spec-decoding falsifier',
